@@ -25,10 +25,12 @@ class LxmlEventHandler(XmlHandler):
             An instance of the class type representing the parsed content.
         """
         if isinstance(source, (etree._ElementTree, etree._Element)):
+            strip_comments_and_pis(source)
             ctx = etree.iterwalk(source, EVENTS)
         elif self.parser.config.process_xinclude:
             tree = etree.parse(source, base_url=self.parser.config.base_url)  # nosec
             tree.xinclude()
+            strip_comments_and_pis(tree)
             ctx = etree.iterwalk(tree, EVENTS)
         else:
             ctx = etree.iterparse(
@@ -82,3 +84,18 @@ class LxmlEventHandler(XmlHandler):
                 raise XmlHandlerError(f"Unhandled event: `{event}`.")
 
         return self.objects[-1][1] if self.objects else None
+
+
+def strip_comments_and_pis(tree: Any) -> None:
+    """Remove comments and processing instructions from a parsed tree.
+
+    In a parsed tree the character data that follows a comment or a
+    processing instruction is the tail of that node, not part of the
+    element text. Removing the nodes merges their tails back into the
+    surrounding text, which is what the event parser with
+    remove_comments/remove_pis delivers for text sources.
+
+    Args:
+        tree: The lxml tree or element
+    """
+    etree.strip_tags(tree, etree.Comment, etree.ProcessingInstruction)
